@@ -609,8 +609,9 @@ def traces_part(rep: Report, replay: dict | None, t_start: float) -> None:
                 raise tlc.MachineryError(f"Trace_Canvas: {v['verdict']} for {case} rect {(tl, tt, cols, rows)}")
             clause = v["verdict"].split(":")[0]
             trim = ("h" if tl or cols != W else "") + ("v" if tt or rows != H else "") or "untrimmed"
+            api = "UrwidImage.rows" if clause == "flow-rows" else "UrwidImageCanvas.content"
             rep.violation(
-                f"UrwidImageCanvas.content:{case['style']}:{clause}:{trim}",
+                f"{api}:{case['style']}:{clause}:{trim}",
                 f"clause {v['verdict']!r} failed at row {v['at']} of content(trim_left={tl}, "
                 f"trim_top={tt}, cols={cols}, rows={rows}) on a {W}x{H} canvas (image {iw}x{ih}, "
                 f"{case['sizing']}, h_align {case['ha']!r}, v_align {case['va']!r}); "
